@@ -531,6 +531,54 @@ def judge(ctx, sc, R, S):
     ctx.event('validator-calls', sum(1 for x in R.validator_log if x[1] == 'call'))
 
 
+def template_scenarios(rng, fe):
+    """Skeletons of the interleavings where bookkeeping is known to be delicate, randomly parameterised."""
+    ok = 'PASS' if fe == 'v2' else True
+    bad = 'FAIL' if fe == 'v2' else False
+
+    def I(i, name, te=0, L=100, lat=0, verdict=None, cbp=False, digest=None):
+        return {'id': i, 'name': name, 'cbp': cbp, 'L': L, 'te': te, 'lat': lat, 'verdict': ok if verdict is None else verdict,
+                'digest': digest, 'placeholder': False}
+
+    def sc(ints, datas, extra):
+        evs = [{'t': it['te'], 'kind': 'express', 'i': it['id']} for it in ints] + extra
+        evs.sort(key=lambda e: e['t'])
+        return {'frontend': fe, 'ints': ints, 'datas': datas, 'events': evs}
+    L = rng.choice([50, 100, 200])
+    d = rng.choice([1, 5, L // 2, L - 1])
+    out = []
+    # T1/T2: two Interests on one name, one cancelled, then a Nack / Data for that name
+    for kind in ('nack', 'data'):
+        ev = [{'t': d, 'kind': 'cancel', 'i': rng.choice([0, 1])}]
+        ev.append({'t': d + rng.choice([0, 1, 10]), 'kind': 'nack', 'i': 0, 'reason': 150} if kind == 'nack' else {'t': d + rng.choice([0, 1, 10]), 'kind': 'data', 'd': 0})
+        out.append(('cancel-then-' + kind, sc([I(0, 'ab', L=L), I(1, 'ab', L=L + rng.choice([0, 50]))], [{'id': 0, 'name': 'ab'}], ev)))
+    # T3: Data claimed, validator outlives the lifetime, the same name is expressed again meanwhile
+    te2 = d + rng.choice([1, L // 2])
+    out.append(('reexpress-while-validating', sc([I(0, 'ab', L=L, lat=L * 3), I(1, 'ab', te=te2, L=L * 4)], [{'id': 0, 'name': 'ab'}],
+                                                 [{'t': d, 'kind': 'data', 'd': 0}, {'t': L + rng.choice([1, 20]), 'kind': 'data', 'd': 0}])))
+    # T4: Data / Nack / cancel exactly at the deadline
+    for kind in ('data', 'nack', 'cancel'):
+        e = {'t': L, 'kind': kind}
+        e.update({'d': 0} if kind == 'data' else {'i': 0, 'reason': 50} if kind == 'nack' else {'i': 0})
+        out.append(('tie-' + kind + '-at-deadline', sc([I(0, 'abc', L=L), I(1, 'abc', L=L * 2)], [{'id': 0, 'name': 'abc'}], [e])))
+    # T5: one Data satisfies nested CanBePrefix Interests and an exact one, but not a sibling
+    out.append(('one-data-many-interests', sc([I(0, 'a', L=L, cbp=True), I(1, 'ab', L=L, cbp=True), I(2, 'abc', L=L), I(3, 'ad', L=L), I(4, 'ab', L=L)],
+                                              [{'id': 0, 'name': 'abc'}], [{'t': d, 'kind': 'data', 'd': 0}])))
+    # T6: shutdown with pending and validating Interests
+    out.append(('shutdown-mixed', sc([I(0, 'ab', L=L * 4, lat=L * 2), I(1, 'ad', L=L * 4), I(2, 'a', L=L * 4, cbp=True)], [{'id': 0, 'name': 'ab'}],
+                                     [{'t': d, 'kind': 'data', 'd': 0}, {'t': d + 5, 'kind': 'shutdown'}])))
+    # T7: Nack for a name that is only a prefix of / longer than a pending name
+    out.append(('nack-for-prefix-of-pending', sc([I(0, 'abc', L=L), I(1, 'a', L=L * 2)], [{'id': 0, 'name': 'abc'}],
+                                                 [{'t': d, 'kind': 'nack', 'i': 1, 'reason': 100}, {'t': d + 1, 'kind': 'data', 'd': 0}])))
+    # T8: validator verdicts differ between Interests satisfied by one Data
+    out.append(('verdicts-differ', sc([I(0, 'ab', L=L, verdict=ok), I(1, 'ab', L=L, verdict=bad, lat=rng.choice([0, 3])), I(2, 'ab', L=L, verdict=ok, lat=5)],
+                                      [{'id': 0, 'name': 'ab'}], [{'t': d, 'kind': 'data', 'd': 0}])))
+    # T9: implicit digest: only the Interest carrying the digest of that very Data is satisfied
+    out.append(('implicit-digest', sc([I(0, 'ab', L=L, digest=('of', 0)), I(1, 'ab', L=L, digest='bogus'), I(2, 'ab', L=L, digest=('of', 1))],
+                                      [{'id': 0, 'name': 'ab'}, {'id': 1, 'name': 'ab'}], [{'t': d, 'kind': 'data', 'd': 1}, {'t': d + 2, 'kind': 'data', 'd': 0}])))
+    return out
+
+
 def exhaustive_space():
     """All orderings of <=4 extra events over 2 Interests on same/nested names (bounded-exhaustive)."""
     out = []
@@ -558,6 +606,12 @@ def run(ctx):
         sc = gen_scenario(rng, 'v2' if i % 2 == 0 else 'v1')
         R, S = execute(sc)
         judge(ctx, sc, R, S)
+    for i in range(ctx.n(60, 6000)):
+        fe = 'v2' if i % 2 == 0 else 'v1'
+        for label, sc in template_scenarios(rng, fe):
+            R, S = execute(sc)
+            judge(ctx, sc, R, S)
+            ctx.klass('template:' + label)
     if not ctx.quick:
         space = exhaustive_space()
         mine = [s for j, s in enumerate(space) if j % ctx.nshards == ctx.shard]
@@ -565,6 +619,9 @@ def run(ctx):
             R, S = execute(sc)
             judge(ctx, sc, R, S)
         ctx.extra['exhaustive_subspace'] = f'all ordered selections of 1..3 events from 5 (Data, 2 Nacks, 2 cancels) over 2 Interests x 2 name pairs x CanBePrefix x 2 front-ends: {len(space)} scenarios'
+    for lab in ('cancel-then-nack', 'cancel-then-data', 'reexpress-while-validating', 'tie-data-at-deadline', 'one-data-many-interests',
+                'shutdown-mixed', 'nack-for-prefix-of-pending', 'verdicts-differ', 'implicit-digest'):
+        ctx.need_class('template:' + lab)
     for k in ('outcome-data', 'outcome-timeout', 'outcome-nack', 'outcome-cancel', 'outcome-valfail', 'validator-calls'):
         ctx.need_event(k)
     ctx.assumptions = ['exact ties (packet / validator completion / deadline in the same millisecond) accept either order',
